@@ -249,11 +249,11 @@ func genC10x(seed uint64) c10case {
 		cs.plan = append(cs.plan, shell)
 	}
 	switch m := r.Intn(20); {
-	case m == 0 && cs.entry == "generic":
+	case m <= 1 && cs.entry == "generic":
 		cs.bypass = true
-	case m == 1 && cs.entry == "generic":
+	case m <= 3 && cs.entry == "generic":
 		cs.plain = true
-	case m <= 4:
+	case m <= 6:
 		total := 0
 		for _, s := range cs.plan {
 			total += len(s.Text) + 1
@@ -264,7 +264,7 @@ func genC10x(seed uint64) c10case {
 		} else {
 			cs.faultAt = r.Intn(total + 8)
 		}
-	case m == 5:
+	case m == 7:
 		cs.silent = true
 		j := r.Intn(len(cs.plan))
 		t := cs.plan[j].Text
